@@ -599,3 +599,33 @@ def shrink_failures(ctx, rep, fails_of, is_known=lambda f: False, rounds=30, bud
             case, best = hit["case"], hit
         if best:
             f.update(case=best["case"], observed=best["observed"], expected=best["expected"], sig=best["sig"])
+
+
+# --------------------------------------------------------------------------- systematic grid (thorough tier)
+def grid_cases():
+    """every (parent style, child style, both edge kinds, outcome, propagate, ack type) once, two overlapping messages"""
+    out = []
+    for s1 in YIELDING:
+        for s2 in STYLES:
+            for e1 in (True, False):
+                for e0 in (True, False):
+                    for oc in ("return", "raise", "base", "noresult", "timeout", "fail0", "fail1"):
+                        for prop in (True, False):
+                            for ack in ("when_received", "when_executed", "when_saved"):
+                                msgs = []
+                                for i in range(2):
+                                    m = {"task": 0, "start": 3000 * i, "pauses": [10000, None, 4000], "dur": [2000],
+                                         "ackable": "sync" if i == 0 else "async", "kw": True, "outcome": "return"}
+                                    if oc in ("raise", "base", "noresult"):
+                                        m["outcome"] = oc
+                                    elif oc == "timeout":
+                                        m["timeout"] = 5000
+                                        m["dur"] = [50000]
+                                    elif oc.startswith("fail") and i == 0:
+                                        m["fail"] = {"node": int(oc[4]), "when": "early"}
+                                    msgs.append(m)
+                                out.append({"nodes": [{"style": s2, "ctx": True, "subs": [], "swallow": False},
+                                                      {"style": s1, "ctx": True, "subs": [[0, e1]], "swallow": False}],
+                                            "tasks": [{"deps": [[1, e0]], "ctx": True, "sync": False}], "msgs": msgs,
+                                            "propagate": prop, "ack": ack, "middleware": True, "via_inmemory": False})
+    return out
